@@ -140,7 +140,7 @@ static int nfiles_seen[64];
 
 static int h_of_pid(pid_t pid) {
   int i;
-  for (i = 0; i < MAXP; i++) if (spawned[i] && pids[i] == pid) return i;
+  for (i = MAXP - 1; i >= 0; i--) if (spawned[i] && pids[i] == pid) return i;   /* latest first: pids can be reused */
   return -1;
 }
 
